@@ -196,7 +196,7 @@ impl Property for C11 {
 		500
 	}
 	fn cases(&self, tier: Tier) -> u64 {
-		tier.pick(50_000, 1_000_000)
+		tier.pick(120_000, 1_000_000)
 	}
 
 	fn run(&self, tape: &[u32], ctx: &mut Ctx) -> CaseResult {
